@@ -129,7 +129,7 @@ def _observe_prefixes(ctx: Any, ip: Any, hist: Dict[str, Any], sched: Dict[int, 
         ctx.count("executions")
         if b.ok:
             pairs.append(("tempting-extras", trace_of(b.computed), Model(extended)))
-        elif is_valid(Model(extended)):
+        elif is_valid(Model(extended)) and _schedule_covers(sched, extended):
             ctx.violation(
                 "stability.valid-continuation-makes-the-run-fail",
                 {"cut": str(cut), "continuation": "tempting-extras", "error_with_continuation": b.error[:300], "fractions_computed_without_it": len(a_keys)},
@@ -162,6 +162,12 @@ def _observe_prefixes(ctx: Any, ip: Any, hist: Dict[str, Any], sched: Dict[int, 
         if has_disposal_before and has_lot_after:
             ctx.distinct("nontrivial", case)
             ctx.sample({"cut": str(cut), "schedule": sched_json(sched), "rows_before": len(prefix["rows"]), "rows_after": len(hist["rows"]) - len(prefix["rows"]), "fractions_before": len(a_keys)})
+
+
+def _schedule_covers(sched: Dict[int, str], hist: Dict[str, Any]) -> bool:
+    """The config is only valid for a history whose every own-timestamp year has a method: a continuation written in a western
+    offset right after new year can carry an own year *before* the first year of a schedule that covered the prefix."""
+    return min(sched) <= min(parse_ts(r["ts"]).year for r in hist["rows"])
 
 
 def _observe_todate(ctx: Any, ip: Any, hist: Dict[str, Any], sched: Dict[int, str], day_s: str) -> None:
@@ -242,7 +248,7 @@ def replay(ctx: Any, case: Dict[str, Any]) -> None:
         prefix = dict(hist, rows=[r for r in hist["rows"] if str(parse_ts(r["ts"]).astimezone(timezone.utc)) <= case["cut"]])
         extended = dict(prefix, rows=prefix["rows"] + case["extras"])
         a, b = ip.run(prefix, sched), ip.run(extended, sched)
-        if a.ok and not b.ok and is_valid(Model(extended)):
+        if a.ok and not b.ok and is_valid(Model(extended)) and _schedule_covers(sched, extended):
             ctx.violation("stability.valid-continuation-makes-the-run-fail", {"error_with_continuation": b.error[:300]}, case)
         elif a.ok and b.ok:
             cut = max(parse_ts(r["ts"]).astimezone(timezone.utc) for r in prefix["rows"])
